@@ -63,11 +63,11 @@ def _spec_checks(ctx):
                 ("Shutdown_live2.cfg", 4, "fair behaviours, 1 connection x 2 callers x 2 hooks (one beyond the deadline)"),
                 ("Shutdown_live3.cfg", 4, "fair behaviours, 2 connections x 1 caller x 2 hooks")]
     with concurrent.futures.ThreadPoolExecutor(max_workers=len(jobs)) as ex:
-        futs = [ex.submit(lib.spec_check, ctx, "Shutdown", cfg, w, 2400, None, 20, None, note) for cfg, w, note in jobs]
+        futs = [ex.submit(lib.spec_check, ctx, "Shutdown", cfg, w, 2400, None, 20, "3g", note) for cfg, w, note in jobs]
         for f in futs:
             f.result()
     _expect_violation(ctx, "Shutdown_asis.cfg", "SecondShutdownErrors",
-                      "Engine.Shutdown as written: the caller that loses the CAS returns nil (known finding)")
+                      "model variant in which the caller that loses the CAS returns nil (the defect fixed in hertz) must violate SecondShutdownErrors")
     _expect_violation(ctx, "Shutdown_neg.cfg", "CloseAnnounced", "exit check moved before the handler")
 
 
